@@ -1,6 +1,85 @@
 import PgFdr.Json
+import PgFdr.Model.C19
 namespace PgFdr.Driver
-open Lean PgFdr
+open Lean PgFdr PgFdr.C19
+
+namespace C19io
+
+def ofChars (s : List Char) : Json := .str (String.ofList s)
+def ofOptChars : Option (List Char) → Json
+  | some s => ofChars s
+  | none => .null
+
+def ofAnnotation (a : Annotation) : Json :=
+  obj [("id", ofOptChars a.id), ("fasta_header", ofChars a.header), ("uniprot_id", ofChars a.uniprotId),
+       ("entry_name", ofChars a.entryName), ("gene_name", ofOptChars a.geneName), ("length", ofNat a.length),
+       ("organism", ofOptChars a.organism), ("description", ofChars a.description),
+       ("existence", match a.existence with | some n => ofNat n | none => .null)]
+
+def jrule (j : Json) : R IdRule := do
+  match ← jstr j with
+  | "full" => pure .full
+  | "accession" => pure .accession
+  | "gene" => pure .gene
+  | s => throw s!"unknown identifier rule {s}"
+
+def jlines (j : Json) : R (List (List Char)) := do
+  pure ((← jstrs j).map String.toList)
+
+def flag (j : Json) (k : String) : R Bool :=
+  match jgetOpt j k with
+  | none => pure false
+  | some v => jbool v
+
+end C19io
+open C19io
+
+/-- `{"op":"header","header":s,"rule":"full"|"accession"|"gene","length":n}` → the annotation's fields
+    or `{"err":"bad_existence"}` -/
+def handleHeader (j : Json) : R Json := do
+  let h ← jstr (← jget j "header")
+  let rule ← match jgetOpt j "rule" with
+    | some r => jrule r
+    | none => pure IdRule.full
+  let len ← match jgetOpt j "length" with
+    | some n => jnat n
+    | none => pure 0
+  match annotate rule h.toList len with
+  | .ok a => pure (ofAnnotation a)
+  | .error e => pure (ofErr e.tag)
+
+/-- `{"op":"annotations","files":[[line…]…]|null,"contains_decoys":b,"gene_level":b,"use_uniprot":b,
+     "rows":[proteinIds…]}` → `{"annotations":[[id|null,{…}]…],"pseudo":b,"columns":[[names,genes,headers]…]}`
+    or `{"err":…}` -/
+def handleAnnotations (j : Json) : R Json := do
+  let files ← match jgetOpt j "files" with
+    | none => pure none
+    | some fs => do pure (some (← jlist jlines fs))
+  let cd ← flag j "contains_decoys"
+  let gl ← flag j "gene_level"
+  let uu ← flag j "use_uniprot"
+  let rows ← match jgetOpt j "rows" with
+    | none => pure []
+    | some r => jstrs r
+  match getAnnotations files cd gl uu with
+  | .error e => pure (ofErr e.tag)
+  | .ok (d, pseudo) =>
+    let cols := rows.map (fun r =>
+      let (n, g, h) := annotationColumns d r.toList
+      Json.arr #[ofChars n, ofChars g, ofChars h])
+    pure (obj [("annotations", ofList (fun (e : Option (List Char) × Annotation) =>
+                  Json.arr #[ofOptChars e.1, ofAnnotation e.2]) d),
+               ("pseudo", .bool pseudo), ("columns", .arr cols.toArray)])
+
+/-- `{"op":"fasta_records","lines":[…],"concat":b}` → `[[header,length]…]` -/
+def handleRecords (j : Json) : R Json := do
+  let lines ← jlines (← jget j "lines")
+  let concat ← flag j "concat"
+  match readFasta concat lines with
+  | .error e => pure (ofErr e.tag)
+  | .ok recs => pure (ofList (fun (r : List Char × Nat) => Json.arr #[ofChars r.1, ofNat r.2]) recs)
+
 /-- protocol handlers of property C19: (op name, handler) -/
-def handlersC19 : List (String × (Json → R Json)) := []
+def handlersC19 : List (String × (Json → R Json)) :=
+  [("header", handleHeader), ("annotations", handleAnnotations), ("fasta_records", handleRecords)]
 end PgFdr.Driver
